@@ -34,13 +34,15 @@ TMsg    == Ev("serve.msg") /\ (RdRawData \/ RdPipeData) /\ rd' = "handler"
 TRet    == Ev("serve.ret") /\ HandlerReturn
 TExit   == Ev("serve.exit") /\ RdFinish
 TCpEnd  == Ev("cp.end") /\ CpNotify
-TGone   == Ev("cn.gone") /\ gone /\ Stutter
+\* cn.gone is logged under the connection's lock by the first notifyClientGone that finds the flag clear
+TGone   == Ev("cn.gone") /\ ~gone /\ (CpNotified \/ RdFinished)
 \* steps the log does not show
 Silent  == /\ l <= Len(Trace) /\ UNCHANGED l
            /\ \/ (~srPending /\ RdEnter)
               \/ ((RdRawData \/ RdPipeData) /\ rd' = "failing")
               \/ RdRawEnd \/ RdPipeEnd \/ RdFail          \* the loop closes the transport; finish() comes later
               \/ CpRead \/ CpEnd \/ CpWriteFails           \* pw.CloseWithError; the notification comes later
+              \/ (gone /\ (CpNotified \/ RdFinished))       \* a notification that finds the flag set logs nothing
 TNext == TReset \/ TFeed \/ TEnd \/ TLClose \/ TCnReq \/ TCreate \/ TSwitch \/ TMsg \/ TRet \/ TExit \/ TCpEnd \/ TGone \/ Silent
 TInit == Init /\ l = 1 /\ TLCSet(1, 0)
 \* accepted <=> a state with l = Len(Trace) + 1 is reachable, i.e. this "invariant" is violated
